@@ -439,8 +439,11 @@ fn ev_bigser(n: u128, fill: u8, via: &str, caps: &Caps) -> Option<Value> {
                     let mut v = json!({"r": "ok", "prefix": bytes_json(&prefix),
                                        "total": n_le(s.total), "body_ok": body_ok});
                     if n < (1u128 << 32) {
-                        // serialized_length_atom takes the length as u32
-                        v["cache"] = n_le(serialized_length_atom(atom) as u128);
+                        // serialized_length_atom (what ObjectCache uses) takes the length as u32
+                        match catch(|| serialized_length_atom(atom)) {
+                            Ok(x) => v["cache"] = n_le(x as u128),
+                            Err(p) => v["cache_panic"] = json!(p),
+                        }
                     }
                     v
                 }
@@ -454,8 +457,13 @@ fn ev_bigser(n: u128, fill: u8, via: &str, caps: &Caps) -> Option<Value> {
                 Ok(out) => {
                     let plen = out.len() - n as usize;
                     let body_ok = if exact { out[plen..].iter().all(|x| *x == fill) } else { out[plen..] == *atom };
-                    json!({"r": "ok", "prefix": bytes_json(&out[..plen]), "total": n_le(out.len() as u128),
-                           "body_ok": body_ok, "cache": n_le(cache_len(&a, node).unwrap_or(0) as u128)})
+                    let mut v = json!({"r": "ok", "prefix": bytes_json(&out[..plen]), "total": n_le(out.len() as u128),
+                                       "body_ok": body_ok});
+                    match catch(|| cache_len(&a, node).unwrap_or(0)) {
+                        Ok(x) => v["cache"] = n_le(x as u128),
+                        Err(p) => v["cache_panic"] = json!(p),
+                    }
+                    v
                 }
                 Err(e) => json!({"r": err_kind(&e)}),
             }
@@ -1026,13 +1034,16 @@ fn main() {
                                 let total = nn + c["prefix"].as_array().map(|a| a.len()).unwrap_or(0) as u128;
                                 let good = e.get("panic").is_none()
                                     && (e["r"] == "ok") == ok
-                                    && (!ok
-                                        || (e["prefix"] == c["prefix"]
-                                            && e["total"] == n_le(total)
-                                            && e["body_ok"] == true
-                                            && (e.get("cache").is_none() || e["cache"] == n_le(total))));
+                                    && (!ok || (e["prefix"] == c["prefix"] && e["total"] == n_le(total) && e["body_ok"] == true));
+                                let cache_good = e.get("cache_panic").is_none()
+                                    && (!ok || e.get("cache").is_none() || e["cache"] == n_le(total));
                                 if !good {
                                     what.push("prefix");
+                                }
+                                if !cache_good {
+                                    what.push("prefix.cache");
+                                }
+                                if !good || !cache_good {
                                     obs["bigser"] = e;
                                 }
                             }
